@@ -339,6 +339,79 @@ func runC14(c *eng.Ctx) {
 			}
 		}
 	}
+	// Filter.Execute over a map whose same-typed elements differ in SHAPE at the selector's parent (a map there, another map there, nothing
+	// there): whatever is remembered about one element must not decide another, in any visiting order
+	for n := 2; n <= 4; n++ {
+		for _, pat := range patterns(3, n)[lenPrefix(3, n):] {
+			for _, src := range []string{"f.b != 1", "f.b == 1", "f.b is empty or f.b == 1"} {
+				fi++
+				if !c.Mine(fi) || !c.Want("c", -fi) {
+					continue
+				}
+				flt, err := bexpr.CreateFilter(src)
+				if err != nil || flt == nil {
+					continue
+				}
+				m := map[string]map[string]interface{}{}
+				for i, p := range pat {
+					switch p {
+					case vT:
+						m["k"+strconv.Itoa(i)] = map[string]interface{}{"f": map[string]interface{}{}} // parent is a map without the key
+					case vF:
+						m["k"+strconv.Itoa(i)] = map[string]interface{}{"f": map[string]interface{}{"b": 1}}
+					default:
+						m["k"+strconv.Itoa(i)] = map[string]interface{}{} // no parent at all: an error
+					}
+				}
+				results := map[string][]int{}
+				execs := vrt.ExploreChoices(func(ch *vrt.Chooser) {
+					vrt.Env = ch
+					shared, _ := bexpr.CreateFilter(src) // a fresh Filter per explored order: what it remembers comes from THIS order only
+					out := execute(shared, m)
+					vrt.Env = nil
+					c.R.Evaluations++
+					var sig string
+					switch {
+					case out.panicked != "":
+						sig = "PANIC " + out.panicked
+					case out.err != nil:
+						sig = "error"
+					default:
+						rv := reflect.ValueOf(out.res)
+						var ks []string
+						for _, k := range rv.MapKeys() {
+							ks = append(ks, k.String())
+						}
+						sort.Strings(ks)
+						sig = "kept " + strings.Join(ks, ",")
+					}
+					if _, ok := results[sig]; !ok {
+						results[sig] = append([]int{}, ch.Choices...)
+					}
+					if len(ch.Choices) > 0 {
+						seamReached = true
+					}
+				})
+				c.R.States++
+				c.R.Transitions += int64(execs)
+				c.R.Traces += int64(execs)
+				if execs >= 2 {
+					c.R.Nontrivial++
+				}
+				if len(results) > 1 {
+					var desc []string
+					for s, seq := range results {
+						desc = append(desc, fmt.Sprintf("%s under %v", s, seq))
+					}
+					sort.Strings(desc)
+					c.Violate(eng.Violation{Kind: "filter-result-depends-on-map-order", Key: fmt.Sprintf("filter=%s | shapes=%v", src, pat), Coords: map[string]int{"c": -fi},
+						Expected: "one result over all iteration orders", Observed: strings.Join(desc, "; ")})
+				} else {
+					c.Count("filter-over-map-of-shapes")
+				}
+			}
+		}
+	}
 	if c.R.States > 0 && !seamReached && !c.Replaying() {
 		// not an alarm: the property may well hold; but the exhaustive part was vacuous and only the sampling complement ran
 		c.Cap(fmt.Sprintf("shard %d: no map-order choice point was hit - the generated overlay did not route any map iteration of the code under test through the seam (see .build/vinstr-full.log); only the free-repetition complement covered these cases", c.Shard))
